@@ -270,3 +270,30 @@ MANIFEST_TEXT["C03"] = {
     "design_ref": "DESIGN.md §5, §6 C03",
     "text": "No report from any of the four UB monitors and no invariant failure on the executions produced; each monitor proven live by a canary. Exploration: not memory safety in general.",
     "note": "Trusted base: rustc ub_checks, ASan runtime, Miri, valgrind; harness. ASan/memcheck blind spots (intra-object, non-adjacent) mitigated by exact-size separate heap buffers and by Miri."}
+
+PLANS["C11"] = dict(session_plan(
+    "stage 1: seeded random sessions on the fixed corpus of command sets (names sharing prefixes and NOT adjacent in the declaration, a multi-byte name, one name a prefix of another, a second visible group, a hidden group, names colliding with prefixes of `help`), typing name prefixes and pressing Tab at every cursor position in command buffers of 1..32 bytes; "
+    "the line after Tab must be a member of the set-valued completion model, keep every non-blank character typed and fit the buffer. distinct = hash of (set, line shape, cursor inside?, fit class, number of matches)",
+    {"c11.completed": 4000}, {"c11.completed": 150000}),
+    stages=[{"variant": "dbg", "workload": "C11"}])
+MANIFEST_TEXT["C11"] = {
+    "technique": "runtime monitoring: hooked line after every Tab checked for membership in a set-valued completion model (longest common continuation of all visible names + help, blank iff unique and room), over fixed and generated name sets",
+    "design_ref": "DESIGN.md §6 C11",
+    "text": "Exploration over random sessions on a fixed corpus of name sets and (stage 2) generated declarations compiled with the repository's macros.",
+    "note": _SESSION_NOTE}
+
+PLANS["C16"] = {
+    "level": "exploration",
+    "rule": "all eight subsets of {history, autocomplete, help} (macros on): each is built from /repo's tree, then runs the same seeded sessions (typing, editing, Up/Down, Tab, help-shaped lines, Cli::write, set_prompt) under the C01/C05/C06/C10/C11/C13/C15 monitors with the reference models configured for that feature set "
+            "(history off: Up/Down change nothing and write nothing; autocomplete off: Tab likewise; help off: help-shaped lines are dispatched like any command); then the per-session transcript hashes (sink bytes and flush positions, handler records, editor state) of every build are compared with the all-features build for every session that never touches a facility the build lacks. "
+            "distinct = hashes of the per-monitor situations; evaluations = monitor clauses + transcripts compared",
+    "assumptions": list(SESSION_ASSUME) + ["with help off, whether Tab still offers the built-in `help` name is not decided by the statement: both accepted"],
+    "exhaustive": {"quick": False, "thorough": False},
+    "min_counts": {"quick": {"c16.transcripts_compared": 8000, "c01.enter.dispatched": 50000}, "thorough": {"c16.transcripts_compared": 100000, "c01.enter.dispatched": 600000}},
+    "stages": [{"custom": "c16_differential", "variants": ["feat-000", "feat-001", "feat-010", "feat-011", "feat-100", "feat-101", "feat-110", "feat-111"]}],
+}
+MANIFEST_TEXT["C16"] = {
+    "technique": "runtime monitoring per feature build (all 8 subsets) with per-build reference models + differential comparison of session transcripts across builds",
+    "design_ref": "DESIGN.md §6 C16",
+    "text": "All eight feature combinations are built and monitored on the same sessions; cross-build transcript equality for sessions that avoid the disabled facility. Exploration.",
+    "note": _SESSION_NOTE}
